@@ -23,21 +23,22 @@
 (***************************************************************************)
 EXTENDS GlmX19, TLC
 GC == INSTANCE GlmColor
+CONSTANT Deep                \* FALSE: the quick instance; TRUE: larger grids (thorough tier)
 VARIABLE st
 vars == <<st>>
 
-LinP0 == {<<0, 0>>, <<-3, 1>>}
-LinD == {<<1, 0>>, <<0, 2>>, <<2, 2>>, <<-4, 0>>, <<3, 4>>, <<1, -2>>, <<-2, -3>>}
-Grid5 == {<<x, y>> : x \in -2..2, y \in -2..2}
+LinP0 == IF Deep THEN {<<0, 0>>, <<1, 2>>, <<-3, 1>>} ELSE {<<0, 0>>, <<-3, 1>>}
+LinD == {<<1, 0>>, <<0, 2>>, <<2, 2>>, <<-4, 0>>, <<3, 4>>, <<1, -2>>, <<-2, -3>>} \cup (IF Deep THEN {<<5, 1>>, <<7, -24>>} ELSE {})
+Grid5 == IF Deep THEN {<<x, y>> : x \in -3..3, y \in -3..3} ELSE {<<x, y>> : x \in -2..2, y \in -2..2}
 \* radial configurations: centre, radius, focal point (inside the circle)
 RadCfg == << <<<<0, 0>>, 5, <<0, 0>>>>, <<<<0, 0>>, 5, <<3, 0>>>>, <<<<0, 0>>, 5, <<0, -4>>>>, <<<<1, -2>>, 10, <<1, -2>>>>,
              <<<<1, -2>>, 10, <<7, -2>>>>, <<<<0, 0>>, 13, <<5, 0>>>>, <<<<-1, 1>>, 5, <<1, 2>>>>, <<<<0, 0>>, 4, <<-2, 2>>>> >>
-Grid7 == {<<x, y>> : x \in -3..3, y \in -3..3}
-Cube4 == {<<r, g, b>> : r \in 0..3, g \in 0..3, b \in 0..3}
-SatC == {<<0, 0, 0>>, <<1, 1, 1>>, <<2, 2, 2>>, <<1, 0, 0>>, <<0, 2, 0>>, <<0, 0, 1>>, <<2, 1, 0>>, <<1, 2, 2>>, <<0, 1, 2>>, <<2, 0, 1>>}
+Grid7 == IF Deep THEN {<<x, y>> : x \in -4..4, y \in -4..4} ELSE {<<x, y>> : x \in -3..3, y \in -3..3}
+Cube4 == IF Deep THEN {<<r, g, b>> : r \in 0..4, g \in 0..4, b \in 0..4} ELSE {<<r, g, b>> : r \in 0..3, g \in 0..3, b \in 0..3}
+SatC == IF Deep THEN {<<r, g, b>> : r \in 0..2, g \in 0..2, b \in 0..2} ELSE {<<0, 0, 0>>, <<1, 1, 1>>, <<2, 2, 2>>, <<1, 0, 0>>, <<0, 2, 0>>, <<0, 0, 1>>, <<2, 1, 0>>, <<1, 2, 2>>, <<0, 1, 2>>, <<2, 0, 1>>}
 SatS == << <<0, 1>>, <<1, 2>>, <<1, 1>>, <<2, 1>>, <<-1, 1>>, <<1, 4>>, <<3, 2>> >>          \* s = n / d, all dyadic
 SatT == {<<1, 2>>, <<2, 1>>, <<-1, 1>>, <<0, 1>>}
-Ycc == {-8, -4, 0, 4, 8, 12, 252}
+Ycc == {-8, -4, 0, 4, 8, 12, 252} \cup (IF Deep THEN {-128, 100, 128} ELSE {})
 
 Init == st = [k |-> "root"]
 Next ==
